@@ -155,6 +155,17 @@ def presentations(rng, sigmod, name, binding):
     return pkw, pargs, args, kw
 
 
+def canon_repr(v):
+    """text that distinguishes exactly what the normalized encoding distinguishes (offsets of aware datetimes, signs of zeros)"""
+    if isinstance(v, datetime.datetime):
+        return "dt:" + v.isoformat()
+    if isinstance(v, (list, tuple)):
+        return "[" + ", ".join(canon_repr(x) for x in v) + "]"
+    if isinstance(v, dict):
+        return "{" + ", ".join("%r: %s" % (k, canon_repr(x)) for k, x in sorted(v.items())) + "}"
+    return repr(v)
+
+
 def same_value(a, b):
     """type-aware equality (bool/int/float distinguished, NaN equal to itself, datetimes by isoformat)"""
     from twosigma.memento.types import MementoFunctionType
@@ -296,6 +307,50 @@ def run(tier, seed):
                             rep.violation("C04:different-binding-same-key", "bindings differing in %s (%r vs %r) share key %s" % (p, old, b2v[p], h1), metas[-1])
                     except Exception:
                         pass
+        # values that Python considers equal (and hashes alike) but that normalize differently are different arguments:
+        # each presentation has its own key, runs its own body, and the body receives the value that was passed
+        utc = datetime.timezone.utc
+        plus1 = datetime.timezone(datetime.timedelta(hours=1))
+        minus530 = datetime.timezone(datetime.timedelta(hours=-5, minutes=-30))
+        twins = [(0.0, -0.0), (-0.0, 0.0),
+                 (datetime.datetime(2021, 3, 4, 12, 0, tzinfo=utc), datetime.datetime(2021, 3, 4, 13, 0, tzinfo=plus1)),
+                 (datetime.datetime(2021, 3, 4, 6, 30, tzinfo=minus530), datetime.datetime(2021, 3, 4, 12, 0, tzinfo=utc)),
+                 ([0.0, 1], [-0.0, 1]), ({"k": 0.0}, {"k": -0.0})]
+        npairs["python_equal"] = 0
+        for ti in range(len(twins) * (2 if tier == "quick" else 8)):
+            v1, v2 = twins[ti % len(twins)]
+            name = rng.choice(list(sigmod.FUNCS))
+            params = sigmod.PARAMS[name]
+            if not params:
+                continue
+            f = sigmod.FUNCS[name]
+            pname = rng.choice(params)
+            base = {q: 7000 + ti for q in sigmod.REQUIRED[name] if q != pname}
+            how = rng.choice(["keyword", "positional"]) if params.index(pname) == 0 and not (set(sigmod.REQUIRED[name]) - {pname}) and pname not in sigmod.KWONLY.get(name, ()) else "keyword"
+            outs = []
+            for v in (v1, v2):
+                tr.clear()
+                try:
+                    if how == "positional":
+                        f(v, **base)
+                    else:
+                        f(**dict(base, **{pname: v}))
+                    h = f.fn_reference().with_args(**dict(base, **{pname: v})).arg_hash
+                except Exception as e:
+                    outs.append(("error", "%s: %s" % (type(e).__name__, str(e)[:80]), None))
+                    continue
+                bodies = [e for e in tr.events if e[0] == "body"]
+                outs.append((h, len(bodies), canon_repr(bodies[0][2].get(pname)) if bodies else None))
+            if any(o[0] == "error" for o in outs):
+                continue
+            npairs["python_equal"] += 1
+            meta = {"fn": name, "parameter": pname, "passed": how, "first": repr(v1), "second": repr(v2), "observed": outs}
+            if outs[0][0] == outs[1][0]:
+                rep.violation("C04:python-equal-values-share-key", "%r and %r normalize differently but got the same key" % (v1, v2), meta)
+            elif outs[1][1] != 1:
+                rep.violation("C04:python-equal-value-served-from-other-key", "after a call with %r, a call with %r did not execute the body (%d executions): it was served another call's result" % (v1, v2, outs[1][1]), meta)
+            elif outs[1][2] != canon_repr(v2):
+                rep.violation("C04:body-got-other-values", "called with %r (after a call with %r) the body received %s" % (v2, v1, outs[1][2]), meta)
         # model: exact pre-image bytes
         mism = 0
         CH = 60
